@@ -52,6 +52,9 @@ KINDS = {
     # the doctest closes the stream its output is collected in: the error arises in the machinery, after the statement,
     # with no frame of the doctest in its traceback (F31); the reported line is some line of the part (not judged)
     'close_stdout': (['>>> import sys', '>>> sys.stdout.close()'], 'ValueError', 'anyline'),
+    # an exception in a part whose (non-traceback) want is not compared because of IGNORE_WANT: still an exception
+    'exc_ignorewant': (['>>> # xdoctest: +IGNORE_WANT', '>>> 1/0', 'whatever text'], 'ZeroDivisionError', 1),
+    'exc_ignorewant_inline': (['>>> 1/0  # xdoctest: +IGNORE_WANT', 'whatever text'], 'ZeroDivisionError', 0),
     # the failing doctest also emitted a (recorded) warning before it failed
     'warn_then_exc': (['>>> import warnings', '>>> warnings.warn("w9")', '>>> 1/0'], 'ZeroDivisionError', 2),
     'warn_then_wrongout': (['>>> import warnings', '>>> warnings.warn("w9")', '>>> print("a")', 'b'], 'GotWantException', 3),
